@@ -354,7 +354,7 @@ pub fn size_count_cases(seed: &Seed) -> Vec<(Vec<u8>, Mutation)> {
 /// a reader that bounds what it reads by the stream; together they reach arithmetic on
 /// `offset + size` and any buffer sized from "what is left after the offset".
 pub fn size_offset_cases(seed: &Seed) -> Vec<(Vec<u8>, Mutation)> {
-    let sizes: Vec<usize> = seed.fields.iter().enumerate().filter(|(_, f)| f.path.ends_with("sample_size") || f.path.ends_with("entry_size")).map(|(i, _)| i).take(2).collect();
+    let sizes: Vec<usize> = seed.fields.iter().enumerate().filter(|(_, f)| f.path.contains(".sample_size#") || f.path.contains(".entry_size#") || f.path.contains(".default_sample_size#")).map(|(i, _)| i).take(2).collect();
     let offs: Vec<usize> = seed.fields.iter().enumerate().filter(|(_, f)| f.kind == Kind::Offset).map(|(i, _)| i).take(2).collect();
     let n = seed.bytes.len() as u64;
     let mut out = Vec::new();
